@@ -523,6 +523,16 @@ func c04Refill(w *fw.W, idx int) {
 	// budget exactly N: the same program must succeed k times in a row in ONE runtime
 	rr := rt.New(rt.Opts{MaxSteps: N})
 	for rep := 0; rep < 4; rep++ {
+		// loads of sources without forms (empty, comment only, nested empty load) are
+		// top-level evaluations too: they must not disturb the refill of later ones
+		switch rep {
+		case 1:
+			rr.Run("empty", fw.Pick(r, []string{"", "  ", "; nothing here\n"}))
+		case 2:
+			rr.Run("nested-empty", "(load-string \"\")")
+		case 3:
+			rr.Run("nested-comment", "(load-string \"; c\")")
+		}
 		t := rr.Run("c04", p.src)
 		w.Eval(1)
 		if t.IsErr && t.Cond == "step-limit-exceeded" {
